@@ -7,6 +7,7 @@
 #include <csignal>
 #include <unistd.h>
 #include <sys/wait.h>
+#include <sys/prctl.h>
 #include <sys/stat.h>
 #include <dirent.h>
 #include <ftw.h>
@@ -122,6 +123,7 @@ static std::string runIsolated(const std::string& cmd, const Args& args, unsigne
   if (pid == 0) {
     close(fds[0]); close(efds[0]);
     dup2(efds[1], 2);
+    prctl(PR_SET_PDEATHSIG, SIGKILL);   // never outlive the driver
     alarm(watchdog);
     std::string r = runCase(cmd, args);
     r.push_back('\n');
@@ -148,6 +150,7 @@ static std::string runIsolated(const std::string& cmd, const Args& args, unsigne
 
 int main(int argc, char** argv) {
   std::ios::sync_with_stdio(false);
+  prctl(PR_SET_PDEATHSIG, SIGKILL);     // a driver whose check was killed must not spin on (a violating library may loop forever)
   if (const char* w = getenv("OP2DRV_WATCHDOG")) g_watchdog = static_cast<unsigned>(atoi(w));
   std::istream* in = &std::cin; std::ifstream fin;
   if (argc > 1) { fin.open(argv[1]); if (!fin) { std::cerr << "cannot open " << argv[1] << "\n"; return 2; } in = &fin; }
